@@ -55,7 +55,7 @@ def gen_set(rng):
         elif r < 0.75:
             items.append(("meta", rng.choice(list("+*.()|?$"))))
         elif r < 0.83:
-            items.append(("esc", rng.choice(["]", "\\", "-", "^", "["])))
+            items.append(("esc", rng.choice(["]", "\\", "-", "^", "[", "|", "|", ".", "*", "+", "?", "(", ")", "$", "{", "}"])))
         elif r < 0.93:
             items.append(("short", rng.choice(SHORT)))
         elif r < 0.97:
@@ -345,7 +345,12 @@ def mutate_str(s, rng, alpha):
 
 
 def break_pattern(p, rng):
-    how = rng.choice(["unclosed(", "unclosed[", "extra)", "leadq", "badrange", "dblq"])
+    how = rng.choice(["unclosed(", "unclosed[", "extra)", "leadq", "badrange", "dblq", "shortrange", "shortrange", "badrep"])
+    if how == "shortrange":
+        # a shortcut class as an end point of a range: Python refuses it
+        return p + rng.choice(["[\\d-a]", "[a-\\d]", "[\\w-z]", "[+-\\d]", "[^\\s-a]", "([\\d-\\d])*", "[0-\\w]"])
+    if how == "badrep":
+        return p + rng.choice(["a{2,1}", "(b){3,0}"])
     if how == "unclosed(":
         return "(" + p
     if how == "unclosed[":
